@@ -340,6 +340,18 @@ if not _OK:
                 if isinstance(n, ast.Return) and n.value is not None and unparse(n.value).startswith(('True', '(True')):
                     inside = [lp for lp in walk_no_nested(f.node) if isinstance(lp, (ast.For, ast.While)) and any(x is n for x in ast.walk(lp))]
                     ctx.add('C12.R5', f'{c.name}.{f.name}:verdict', not inside, (f.file, n.lineno), 'the positive verdict is issued after all loops have finished' if not inside else 'a positive verdict is returned from inside a loop: later elements are never examined', 'verdict')
+    # a loop variable read after its loop stands for the last element only: the test that uses it examines one pair, not all
+    for c in nm.classes.values():
+        for f in c.methods.values():
+            if not f.name.startswith('check_'):
+                continue
+            for lp in [n for n in walk_no_nested(f.node) if isinstance(n, ast.For)]:
+                inside = {id(x) for x in ast.walk(lp)}
+                tvars = {x.id for x in ast.walk(lp.target) if isinstance(x, ast.Name)} - {'_'}
+                restored = {x.id for x in walk_no_nested(f.node) if isinstance(x, ast.Name) and isinstance(x.ctx, ast.Store) and id(x) not in inside and seq(x) > seq(lp)}
+                stale = sorted({x.id for x in walk_no_nested(f.node) if isinstance(x, ast.Name) and isinstance(x.ctx, ast.Load) and x.id in tvars and id(x) not in inside and seq(x) > seq(lp) and x.id not in restored})
+                ctx.add('C12.R5', f'{c.name}.{f.name}:loop-variables@{unparse(lp.target)}', not stale, (f.file, lp.lineno),
+                        'the variables of the loop are used inside it only' if not stale else f'{", ".join(stale)} (variable of the loop over {unparse(lp.iter)[:40]}) is read after the loop has ended: what follows examines the last element only, not every element', 'stale')
     cp = prog.func('nests', 'NestsForNestedLogit.check_partition')
     ok = body_is(cp.body, """
 _VU, _MU = self.check_union()
@@ -429,6 +441,13 @@ if _BAD.any():
 ___
 return (_ERRS, _WARNS)
 """)
+    # positive part: utilities and availabilities must have the same keys - the test is an (in)equality of the two key views
+    tests = [n for n in walk_no_nested(ll.node) if isinstance(n, (ast.If, ast.IfExp)) and 'self.util.keys()' in unparse(n.test) and 'self.av.keys()' in unparse(n.test)]
+    for n in tests[:1]:
+        t = n.test
+        sym = isinstance(t, ast.Compare) and len(t.ops) == 1 and isinstance(t.ops[0], (ast.Eq, ast.NotEq)) and {unparse(t.left), unparse(t.comparators[0])} == {'self.util.keys()', 'self.av.keys()'}
+        ctx.add('C12.R1', 'LogLogit.audit:same-keys', sym, (ll.file, n.lineno), 'utilities and availabilities are required to have the same keys' if sym
+                else f'the consistency test {unparse(t)} is not an equality of the two key sets: an availability without utility (or conversely) is accepted', unparse(t), positive=True)
     ctx.add('C12.R1', 'LogLogit.audit:consistency', ok, ll, 'utilities/availabilities key mismatch and invalid choices are errors' if ok else 'consistency tests of LogLogit.audit changed', 'consistency')
     # ---- R8
     prep = [n for n in walk_no_nested(gv.node) if isinstance(n, ast.Expr) and unparse(n.value).startswith('self.prepare(')]
